@@ -161,3 +161,66 @@ fn group_by_flattened<const N: usize>() {
     kani::cover!(o.groups == 2 && cut == 1, "C40.cover.two_groups_across_slices");
     kani::cover!(cut == 0 && n > 0, "C40.cover.empty_first_slice");
 }
+
+/// An underlying iterator with an INEXACT size hint (`Filter`: lower bound 0, finite upper bound while items remain): the
+/// group-by must partition the filtered sequence exactly as it partitions a slice.
+#[kani::proof]
+#[kani::unwind(6)]
+fn c40_group_by_filtered() {
+    group_by_filtered::<3>();
+}
+#[kani::proof]
+#[kani::unwind(8)]
+fn c40_group_by_filtered_deep() {
+    group_by_filtered::<5>();
+}
+fn group_by_filtered<const N: usize>() {
+    let raw: [u8; N] = kani::any();
+    let m: u8 = kani::any();
+    let f: u8 = kani::any(); // items with (x & f) == 0 are filtered out
+    // the expected input of the group-by: the kept items, in order
+    let mut data = [0u8; N];
+    let mut n = 0;
+    let mut k = 0;
+    while k < N {
+        if raw[k] & f != 0 {
+            data[n] = raw[k];
+            n += 1;
+        }
+        k += 1;
+    }
+    let mut o = new_obs::<N>();
+    {
+        let o1 = core::cell::RefCell::new(&mut o);
+        rg::group_by_iter(
+            raw.iter().copied().filter(|x| *x & f != 0),
+            |x| *x & m,
+            |key, len| {
+                let mut o = o1.borrow_mut();
+                if o.groups < N {
+                    let g = o.groups;
+                    o.keys[g] = key;
+                    o.lens[g] = len;
+                    o.groups += 1;
+                } else {
+                    o.overflow = true;
+                }
+            },
+            |x| {
+                let mut o = o1.borrow_mut();
+                if o.n_items < N && o.groups >= 1 {
+                    let i = o.n_items;
+                    o.items[i] = x;
+                    o.item_group[i] = o.groups - 1;
+                    o.n_items += 1;
+                } else {
+                    o.overflow = true;
+                }
+            },
+        );
+    }
+    check(&data, n, m, &o);
+    kani::cover!(o.groups == 2 && n == N - 1, "C40.cover.filtered_two_groups_one_item_dropped");
+    kani::cover!(n == 0 && f != 0, "C40.cover.everything_filtered_out");
+    kani::cover!(o.groups == 1 && n == N, "C40.cover.nothing_filtered_single_run");
+}
